@@ -124,6 +124,21 @@ def run(prop_id, tier, seed, report):
                     problems = []
                     if prop_id == "C09":
                         problems += permanent_files_ok(dst, alg, supplied)
+                        if sc.call.name == "store_metadata" and sc.pid is not None:
+                            # the call is retried after the crash with a shorter document: what is published then
+                            # must again be exactly a supplied version (nothing of the interrupted attempt in it)
+                            twin = dst + "_retry"
+                            shutil.copytree(dst, twin)
+                            try:
+                                short = contents.add(b"<m/>")
+                                real2 = impl.Real(contents, base=trio.real.base, root=twin, **cfg)
+                                rr = real2.run(store_metadata(sc.pid, ("ok", short, "str", 0), sc.call.args.get("format_id")))
+                                if not rr.startswith("ok"):
+                                    problems.append("retry of store_metadata after the crash fails: %s" % rr[:60])
+                                problems += ["after the retry: " + x for x in
+                                             permanent_files_ok(twin, alg, supplied | {contents.by_tok[short]})]
+                            finally:
+                                shutil.rmtree(twin, ignore_errors=True)
                     if prop_id == "C10":
                         problems += crash_recovery(trio, sc, dst, i + 1, contents, cfg, pre_abs, pid_prefixes, alg)
                     if problems:
@@ -204,6 +219,25 @@ def crash_recovery(trio, sc, snap_dir, k, contents, cfg, pre_abs, pid_prefixes, 
     elif r not in CLASSIFIED:
         problems.append("interrupted pid: retrieve_object gives %s (neither bytes nor a classified inconsistency)" % r)
     # model correspondence of the recovery from the same crash state is checked by the caller through results below
+    # (3') the same recovery with the very data of the interrupted call (whatever the crash left at its address must
+    #      not be trusted as that content), on a copy of the crash directory
+    if sc.data_tok is not None and sc.call.name == "store_object":
+        import shutil as _sh
+        twin = snap_dir + "_same"
+        _sh.copytree(snap_dir, twin)
+        try:
+            real2 = impl.Real(contents, base=trio.real.base, root=twin, **cfg)
+            q1 = real2.run(delete_object(sc.pid))
+            if not (q1 == "ok unit" or q1 == "err PidRefsDoesNotExist"):
+                problems.append("recovery with the same data: delete_object(%r) fails with %s" % (sc.pid, q1))
+            q2 = real2.run(store_object(sc.pid, ("ok", sc.data_tok, "str", 0)))
+            if not q2.startswith("ok meta"):
+                problems.append("recovery with the same data: store_object(%r) after delete fails with %s" % (sc.pid, q2))
+            q3 = real2.run(retrieve_object(sc.pid))
+            if q3 != "ok content tok:%d" % sc.data_tok:
+                problems.append("recovery with the same data: pid not retrievable with its bytes: %s" % q3[:60])
+        finally:
+            _sh.rmtree(twin, ignore_errors=True)
     # (3) delete_object (may say unknown) then store_object always succeeds and the pid is retrievable
     r1 = real.run(delete_object(sc.pid))
     if not (r1 == "ok unit" or r1 == "err PidRefsDoesNotExist"):
